@@ -634,6 +634,25 @@ fn vanish_lagrange_rel<F: PrimeField, D: DomKind<F>>(cfg: &Cfg, t: &mut Tape<'_>
     for (i, w) in elems.iter().enumerate() {
         ensure!(d.element(i) == *w, "coset.element", "element({}) = {} expected {}", i, d.element(i), w);
     }
+    // the iterator protocol on elements(): jumping ahead, skipping, striding, counting must visit the same elements
+    {
+        let k = t.below(size as u64 + 2) as usize;
+        let mut it = d.elements();
+        let got = it.nth(k);
+        ensure!(got == elems.get(k).copied(), "elements.nth", "elements().nth({}) = {:?} expected {:?} (size {} {})", k, got, elems.get(k), size, hc);
+        let nxt = it.next();
+        ensure!(nxt == elems.get(k + 1).copied(), "elements.nth.then-next", "next() after nth({}) = {:?} expected {:?}", k, nxt, elems.get(k + 1));
+        let sk: Vec<F> = d.elements().skip(k).collect();
+        ensure_vec_eq!(sk, elems[k.min(elems.len())..].to_vec(), "elements.skip", format!("skip({}) size {} {}", k, size, hc));
+        let st = 1 + t.below(5) as usize;
+        let sv: Vec<F> = d.elements().step_by(st).collect();
+        let want: Vec<F> = elems.iter().copied().step_by(st).collect();
+        ensure_vec_eq!(sv, want, "elements.step_by", format!("step_by({}) size {} {}", st, size, hc));
+        ensure!(d.elements().count() == elems.len(), "elements.count", "elements().count() != size");
+        ensure!(d.elements().last() == elems.last().copied(), "elements.last", "elements().last() differs");
+        let (lo, hi) = d.elements().size_hint();
+        ensure!(lo <= elems.len() && hi.map_or(true, |h| h >= elems.len()), "elements.size_hint", "size_hint ({}, {:?}) excludes the true length {}", lo, hi, elems.len());
+    }
     // vanishing polynomial
     let mut z = F::one();
     for e in &elems {
